@@ -15,6 +15,25 @@ const ID = "C02"
 
 type Case struct {
 	Script gen.Script `json:"script"`
+	// SepAfter: the application has registered an add-time row callback on the table that rules off every row: when
+	// it is handed a row that has joined the table it adds a separator (building from within a building call)
+	SepAfter bool `json:"sep_after,omitempty"`
+}
+
+type ruler struct{ t tabular.Table }
+
+func (r ruler) UpdateProperties(po tabular.PropertyOwner) error {
+	row, ok := po.(*tabular.Row)
+	if !ok || row.IsSeparator() {
+		return nil
+	}
+	for _, x := range r.t.AllRows() {
+		if x == row { // a row of the table (the header row is not one)
+			r.t.AddSeparator()
+			break
+		}
+	}
+	return nil
 }
 
 type markKey struct{}
@@ -211,8 +230,27 @@ func CheckCase(c Case) *ev.Violation {
 	if v := Sweep(t, m, 0); v != nil {
 		return ev.V("empty table: %s", v.Msg)
 	}
+	if c.SepAfter {
+		if err := t.RegisterPropertyCallback(t, tabular.CB_AT_ADD, tabular.CB_ON_ROW, ruler{t}); err != nil {
+			return ev.V("registering an add-time row callback on the table failed: %v", err)
+		}
+	}
 	for i, op := range c.Script.Ops {
+		before := len(m.Rows)
 		m.Step(t, op)
+		if c.SepAfter && len(m.Rows) == before+1 && !m.Rows[before].Sep {
+			// the callback ruled the new row off: a separator follows it
+			sep := &gen.MRow{Sep: true, Attached: true, Pos: before + 2}
+			if rows := t.AllRows(); len(rows) >= 2 {
+				sep.Real = rows[len(rows)-1]
+				if m.Rows[before].Real == sep.Real {
+					m.Rows[before].Real = rows[len(rows)-2] // the model took "the last row of the table" for the new row
+				}
+			}
+			m.Rows = append(m.Rows, sep)
+			m.All = append(m.All, sep)
+			m.HasSep = true
+		}
 		if v := Sweep(t, m, i+1); v != nil {
 			return ev.V("after step %d (%s): %s", i+1, op.K, v.Msg)
 		}
@@ -224,6 +262,9 @@ func Classify(c Case) (bool, interface{}, []string) {
 	// replay the script on a scratch table to learn the model facts
 	_, m := gen.Build(c.Script)
 	var cl []string
+	if c.SepAfter {
+		cl = append(cl, "a-callback-rules-off-every-row")
+	}
 	add := func(b bool, s string) {
 		if b {
 			cl = append(cl, s)
